@@ -4,6 +4,7 @@ import (
 	"time"
 
 	"github.com/karagenc/socket.io-go/internal/sync"
+	"github.com/karagenc/socket.io-go/internal/verifhook"
 
 	"github.com/karagenc/socket.io-go/parser"
 	"github.com/karagenc/yeast"
@@ -66,6 +67,7 @@ func newSessionAwareAdapter(
 func (a *sessionAwareAdapter) cleaner() {
 	for {
 		time.Sleep(a.cleanerDuration)
+		verifhook.Yield("session-cleaner")
 
 		a.mu.Lock()
 		for sessionID, session := range a.sessions {
